@@ -21,7 +21,7 @@
     `listPushHostlist (fixed := false)` is the unchanged retry loop of opt.c.  Which forms /repo
     contains is PROBED by the check on every run.
 -/
-import PdshVerif.Hostlist.Basic
+import PdshVerif.Hostlist.Push
 
 namespace PdshVerif.Hostlist.Print
 open PdshVerif.Hostlist
@@ -270,5 +270,75 @@ def listPushHostlist (fixed : Bool) (h : HL) : Buf × Option Str :=
     match rangedString (XLIST_BUF - 1) h with
     | (b, .trunc) => (b, none)
     | (b, .ok _) => (b, b.text (XLIST_BUF - 1))
+
+/-! ### `list_push_hostlist` with its heap block made explicit -/
+/-- one call of the retry loop: the size announced to `hostlist_ranged_string`, the capacity of the
+    heap block `s` at that moment, the buffer after the call -/
+structure Attempt where
+  n : Nat
+  cap : Nat
+  buf : Buf
+
+/-- all calls of the REPAIRED retry loop, first to last.  `cap` is what `Malloc (n)` /
+    `Realloc (&s, n)` made of the block: the loop body runs `n *= 2` (in the condition) BEFORE
+    `Realloc`, so every call is entered with `cap = n`. -/
+def listPushTrace (h : HL) : Nat → Nat → Nat → List Attempt
+  | 0, n, cap => [⟨n - 1, cap, (rangedString (n - 1) h).1⟩]
+  | f + 1, n, cap =>
+    match rangedString (n - 1) h with
+    | (b, .ok _) => [⟨n - 1, cap, b⟩]
+    | (b, .trunc) =>
+      ⟨n - 1, cap, b⟩ :: (if 2 * n < XLIST_MAX then listPushTrace h f (2 * n) (2 * n) else [])
+
+/-! ### the other callers inside hostlist.c that print into FIXED buffers -/
+/-- `hostlist_pop_range` / `hostlist_next_range`: `char buf[MAXHOSTRANGELEN + 1]` -/
+def RANGEBUF : Nat := PdshVerif.Gen.MAXHOSTRANGELEN + 1
+/-- `hostlist_shift_range`: `char buf[1024]` -/
+def SHIFTRANGEBUF : Nat := 1024
+
+/-- `hostlist_pop_range`: `hostlist_ranged_string(hltmp, MAXHOSTRANGELEN, buf)`, then `strdup(buf)`;
+    `rs` = the records moved to `hltmp` (the last bracket group of the list) -/
+def popRangeBuf (rs : List HRange) : Buf × Res := rangedStringL PdshVerif.Gen.MAXHOSTRANGELEN rs
+/-- `hostlist_shift_range`: `hostlist_ranged_string(hltmp, 1024, buf)`, then `strdup(buf)` -/
+def shiftRangeBuf (rs : List HRange) : Buf × Res := rangedStringL SHIFTRANGEBUF rs
+/-- `hostlist_next_range`: `_get_bracketed_list(i->hl, &j, MAXHOSTRANGELEN, buf)`, then `strdup(buf)` -/
+def nextRangeBuf (cur : HRange) (rest : List HRange) : Buf × Nat × List HRange :=
+  getBracketedList Buf.empty 0 PdshVerif.Gen.MAXHOSTRANGELEN cur rest
+
+/-- `hostlist_shift_range` until NULL: each call moves the first record and the records that follow it
+    as long as they are `hostrange_within_range` of `hltmp->hr[0]` into a fresh list (through
+    `hostlist_push_range`, i.e. with tail coalescing) and returns that list's compressed text from
+    `char buf[1024]` (silently cut when longer).  One entry per call: (records of `hltmp`, buffer). -/
+def shiftRangeCalls : Nat → List HRange → List (List HRange × Buf)
+  | 0, _ => []
+  | _ + 1, [] => []
+  | f + 1, r0 :: rest =>
+    let grp := r0 :: rest.takeWhile (withinRange r0)
+    let tmp := (grp.foldl pushRange HL.new).ranges.toList
+    (tmp, (shiftRangeBuf tmp).1) :: shiftRangeCalls f (rest.dropWhile (withinRange r0))
+
+/-- `hostlist_pop_range` until NULL: the same from the tail (`hostrange_within_range(tail, hr[i])`
+    walking backwards), printed from `char buf[MAXHOSTRANGELEN + 1]` -/
+def popRangeCalls : Nat → List HRange → List (List HRange × Buf)
+  | 0, _ => []
+  | f + 1, rs =>
+    match rs.reverse with
+    | [] => []
+    | t :: before =>
+      let grp := (t :: before.takeWhile (withinRange t)).reverse
+      let tmp := (grp.foldl pushRange HL.new).ranges.toList
+      (tmp, (popRangeBuf tmp).1) :: popRangeCalls f (before.dropWhile (withinRange t)).reverse
+
+/-! ### one host name into a heap block: `hostlist_next`, `_hostrange_string` (`hostlist_nth`),
+    `hostrange_shift`, `hostrange_pop` -/
+/-- `snprintf(buf, size, "%s%0*lu", prefix, width, k)` into a block of `size` bytes -/
+def formatHost (size : Nat) (r : HRange) (k : Nat) : Buf × Nat :=
+  snprintfAt Buf.empty 0 size (r.pre ++ fmtPad r.width k)
+
+/-- the block `hostlist_next` and `_hostrange_string` allocate (repaired D17 / D24):
+    `strlen(prefix) + (width > 20 ? width : 20) + 1` -/
+def nextSize (r : HRange) : Nat := r.pre.length + (if r.width > 20 then r.width else 20) + 1
+/-- the block `hostrange_shift` / `hostrange_pop` allocate: `strlen(prefix) + width + 16` -/
+def shiftSize (r : HRange) : Nat := r.pre.length + r.width + 16
 
 end PdshVerif.Hostlist.Print
